@@ -166,12 +166,12 @@ EtrsPoly(e, t) ==
         /\ Distinct(xs)
         /\ OnPoly(xs, EtrsPs(e), k, [n |-> Ord(e), c |-> Crv(e)])
 EtrsEntryStmt(r) == OrOf(r.h, r.pk, r.c0, r.c1, r.s0, r.s1)
-EtrsBase(e) == /\ e.mdl = 32 /\ Len(e.ring) >= 1 /\ Len(e.td) = Len(e.y) /\ GroupEl(e, e.pp)
+EtrsSoks(e) == /\ e.mdl = 32 /\ Len(e.ring) >= 1 /\ Len(e.td) = Len(e.y)
                /\ \A i \in 1..Len(e.ring) : GroupEl(e, e.ring[i].h) /\ GroupEl(e, e.ring[i].pk)
                /\ \A i \in 1..Len(e.ring) : OrHolds(e, e.msg, PAbs(e, e.G), PAbs(e, e.G), EtrsEntryStmt(e.ring[i]))
 EtrsRange(e) == /\ AllIn(e.td, Ord(e)) /\ AllIn(e.y, Ord(e))
                 /\ \A i \in 1..Len(e.ring) : InRange(e.ring[i].y, Ord(e)) /\ OrRange(EtrsEntryStmt(e.ring[i]), Ord(e))
-EtrsLax(e, t) == EtrsBase(e) /\ EtrsPoly(e, t)
+EtrsLax(e, t) == EtrsSoks(e) /\ GroupEl(e, e.pp) /\ EtrsPoly(e, t)
 EtrsDef(e, t) == EtrsRange(e) /\ EtrsLax(e, t)
 (* The library documents the threshold as exact in its tests (a signature of t + 1 signers is refused for t): the     *)
 (* verdict must be ACCEPT only if at least t signed (definition above), and ACCEPT if exactly t did.                *)
@@ -240,10 +240,14 @@ PsExp(e, ms, i) == IF i > Len(e.y) THEN <<>>
 PsEqn(e, ms, b) ==
     PEq(PMulG(e, BAddMod(Lg(e.x), PsExp(e, ms, 1), Ord(e)), e.a), PMulNat(Lg(e.g), b, Crv(e)))
 PsMsgs(e) == [i \in 1..Len(e.m) |-> ModN(e.m[i], Ord(e))]
-PsDefG(e, needgen) ==
+(* strict: the key is (g, X, Y_1 .. Y_l) with g a generator of G2 and X, Y_i elements of G2.  The lax form (used only *)
+(* to key a known finding) lets g = O pass and ignores a Y_i outside G2 whose message m_i is 0 mod n ([0]Y_i = O      *)
+(* whatever Y_i is; the ghost logarithm of such an element is logged as 0)                                           *)
+PsDefG(e, strict) ==
     /\ Len(e.m) = Len(e.y)
-    /\ G1Nz(e, e.a) /\ G1El(e, e.b) /\ G2AllIn(PsKeys(e))
-    /\ (needgen => Lg(e.g) # <<>>)                              \* g generates G2
+    /\ G1Nz(e, e.a) /\ G1El(e, e.b) /\ G2AllIn(<<e.g, e.x>>)
+    /\ \A i \in 1..Len(e.y) : e.y[i].has = 1 \/ (~strict /\ PsMsgs(e)[i] = <<>> /\ Lg(e.y[i]) = <<>>)
+    /\ (strict => Lg(e.g) # <<>>)                               \* g generates G2
     /\ PsEqn(e, PsMsgs(e), PAbs(e, e.b))
 PsDef(e) == PsDefG(e, TRUE)
 (* two parties: shares m_i = m_i0 + m_i1, b = b0 + b1; with vflag the shares of the secret exponents replace Y_i *)
@@ -251,17 +255,18 @@ MpsMsgs(e) == [i \in 1..Len(e.m) |-> BAddMod(ModN(e.m[i][1], Ord(e)), ModN(e.m[i
 RECURSIVE MpsSecExp(_, _, _)
 MpsSecExp(e, ms, i) == IF i > Len(e.sv) THEN <<>>
                        ELSE BAddMod(BMulMod(ms[i], ModN(e.sv[i], Ord(e)), Ord(e)), MpsSecExp(e, ms, i + 1), Ord(e))
-MpsDef(e) ==
+MpsDefG(e, needgen) ==
     LET cv == Crv(e)
         b == PAdd(PAbs(e, e.b0), PAbs(e, e.b1), cv)
     IN  /\ Len(e.m) = Len(e.y)
         /\ G1Nz(e, e.a) /\ G1El(e, e.b0) /\ G1El(e, e.b1)
-        /\ Lg(e.g) # <<>>
+        /\ G2AllIn(<<e.g>>) /\ (needgen => Lg(e.g) # <<>>)
         /\ IF e.vflag = 0
            THEN G2AllIn(PsKeys(e)) /\ PsEqn(e, MpsMsgs(e), b)
            ELSE /\ G2AllIn(<<e.g, e.x>>)
                 /\ PEq(PMulG(e, BAddMod(Lg(e.x), BMulMod(Lg(e.g), MpsSecExp(e, MpsMsgs(e), 1), Ord(e)), Ord(e)), e.a),
                        PMulNat(Lg(e.g), b, cv))
+MpsDef(e) == MpsDefG(e, TRUE)
 GtIsOne(e, g) == FAbs(e, g[1]) = <<1>> /\ \A i \in 2..Len(g) : FAbs(e, g[i]) = <<>>
 MpsKeys(e) == IF e.vflag = 0 THEN PsKeys(e) ELSE <<e.g, e.x>>
 MpsOk(e) == /\ Clean(e) /\ e.ret = 0 /\ G2Claims(e, MpsKeys(e))
@@ -381,25 +386,36 @@ Sig2KnownKey(e) ==
             IF Accepted(e) /\ ~InRange(e.z, Ord(e)) /\ VbnnLax(e)
             THEN "C05-vbnn-z-not-range-checked" ELSE ""
       [] e.op = "ers_ver" ->
+            \* the embedded signatures of knowledge are verified by cp_sokor_ver, the trapdoor by the ring verifier itself
             IF Accepted(e) /\ ~ErsRange(e) /\ ErsLax(e)
-            THEN "C05-ers-scalars-not-range-checked" ELSE ""
+            THEN (IF ~EntryRange(e, e.ring) THEN "C05-sok-scalars-not-range-checked" ELSE "C05-ers-trapdoor-not-range-checked")
+            ELSE ""
       [] e.op = "smlers_ver" ->
             IF Accepted(e) /\ ~SmlRange(e) /\ SmlLax(e)
-            THEN "C05-ers-scalars-not-range-checked" ELSE ""
+            THEN (IF ~(EntryRange(e, e.ring) /\ \A i \in 1..Len(e.ring) : OrRange(TagStmt(e.ring[i]), Ord(e)))
+                  THEN "C05-sok-scalars-not-range-checked" ELSE "C05-ers-trapdoor-not-range-checked")
+            ELSE ""
       [] e.op = "etrs_ver" ->
             IF e.thres > Len(e.ring)
             THEN \* the work arrays have max + size - thres entries and are filled with max of them: anything may happen
                  (IF e.crash # 0 \/ ~Clean(e) \/ e.ret # 0 THEN "C05-etrs-threshold-above-ring-size-overflows" ELSE "")
-            ELSE IF ~(Accepted(e) /\ e.crash = 0 /\ e.thres >= 1 /\ EtrsBase(e)) THEN ""
-            ELSE IF ~EtrsPoly(e, e.thres)
-                 THEN \* every signature of knowledge holds but the nodes are not on a polynomial of the required degree
+            ELSE IF ~(Accepted(e) /\ e.crash = 0 /\ e.thres >= 1 /\ EtrsSoks(e)) THEN ""
+            ELSE IF ~(GroupEl(e, e.pp) /\ EtrsPoly(e, e.thres))
+                 THEN \* every signature of knowledge holds but the nodes (0, pp), (y_i, [td_i]G), (y_j, h_j) are not on a
+                      \* polynomial of the required degree (pp may not even be a point of the curve)
                       "C05-etrs-interpolation-not-enforced"
-            ELSE IF ~EtrsRange(e) THEN "C05-ers-scalars-not-range-checked"
+            ELSE IF ~(\A i \in 1..Len(e.ring) : OrRange(EtrsEntryStmt(e.ring[i]), Ord(e))) THEN "C05-sok-scalars-not-range-checked"
+            ELSE IF ~EtrsRange(e) THEN "C05-ers-trapdoor-not-range-checked"
             ELSE ""
       [] e.op \in {"pss_ver", "psb_ver"} ->
-            \* g = O is no generator: the equation degenerates to e(a, X + sum [m_i]Y_i) = 1
-            IF Accepted(e) /\ G2Claims(e, PsKeys(e)) /\ G2AllIn(PsKeys(e)) /\ Lg(e.g) = <<>> /\ PsDefG(e, FALSE)
-            THEN "C05-ps-identity-generator" ELSE ""
+            \* the key is not validated: g = O is no generator (the equation degenerates to e(a, X + sum [m_i]Y_i) = 1),
+            \* and a Y_i that is no element of G2 goes unnoticed when m_i = 0
+            IF Accepted(e) /\ G2Claims(e, PsKeys(e)) /\ ~PsDefG(e, TRUE) /\ PsDefG(e, FALSE)
+            THEN "C05-ps-public-key-not-validated" ELSE ""
+      [] e.op \in {"mpss_ver", "mpsb_ver"} ->
+            IF /\ Clean(e) /\ e.ret = 0 /\ G2Claims(e, MpsKeys(e)) /\ (\A i \in 1..Len(e.e) : FCanon(e, e.e[i])) /\ GtIsOne(e, e.e)
+               /\ G2AllIn(<<e.g>>) /\ Lg(e.g) = <<>> /\ MpsDefG(e, FALSE)
+            THEN "C05-ps-public-key-not-validated" ELSE ""
       [] e.op = "mklhs_ver" ->
             \* undefined behaviour (reads and writes behind the array): abnormal end or a verdict that differs from the definition
             IF MkShape(e) /\ MkOverrun(e) /\ G2Claims(e, e.pk) /\ (e.crash # 0 \/ ~Verdict(e, MkDef(e)))
